@@ -117,9 +117,15 @@ class VarMatcher(BaseMatcher):
 @dataclass(frozen=True, slots=True)
 class SequenceMatcher(BaseMatcher):
     matchers: tuple[BaseMatcher, ...]
-    tail_matcher: AnyMatcher | None = field(default=None, init=False)
+    # Normally split off the `matchers` in __post_init__. It is an init field
+    # so that `dataclasses.replace` (used to add a capture name) keeps it.
+    tail_matcher: AnyMatcher | None = None
 
     def __post_init__(self) -> None:
+        if self.tail_matcher is not None:
+            # Already split (a copy made by `dataclasses.replace`)
+            return
+
         if len(self.matchers) == 0:
             raise RuntimeError(
                 "SequenceMatcher must have at least one matcher."
